@@ -338,7 +338,7 @@ def rules(draw) -> dict:
             if three >= 0 and three <= 60000:
                 rule['fill'] = {'type': fill['type'], 'kw': kws[fill['type']], 'three': three, 'two': two, 'first': draw(st.booleans())}
     # a value outside the header field for a one octet component: the only right answers are a refusal or a faithful encoding
-    if not rule['fill'] and draw(st.integers(0, 24)) == 0:
+    if not rule['fill'] and draw(st.integers(0, 39)) == 17:
         one_octet = [t for t in (3, 7, 8, 11) if not (afi == 1 and t == 11)]
         t = draw(st.sampled_from(one_octet))
         rule['probe'] = {'type': t, 'kw': kws[t], 'value': draw(st.sampled_from([256, 300, 4660, 65535]))}
